@@ -22,7 +22,10 @@ pub struct SortCase {
 }
 
 pub fn mk(a: &A) -> SocketAddr {
-    if a.0 {
+    if a.0 && a.1 >= 200 {
+        // link-local with interface scope and flow label: part of the address like everything else
+        SocketAddr::V6(std::net::SocketAddrV6::new(Ipv6Addr::new(0xfe80, 0, 0, 0, 0, 0, 0, a.1 as u16), a.2, (a.1 as u32 - 199) * 17, a.1 as u32 - 198))
+    } else if a.0 {
         SocketAddr::new(IpAddr::V6(Ipv6Addr::new(0x2001, 0xdb8, 0, 0, 0, 0, 0, a.1 as u16)), a.2)
     } else {
         SocketAddr::new(IpAddr::V4(Ipv4Addr::new(192, 0, 2, a.1)), a.2)
@@ -105,7 +108,12 @@ impl Engine for SortEngine {
         // set_port
         let ported = verif_hooks::set_port(got.clone(), case.port);
         if ported.len() != got.len()
-            || ported.iter().zip(got.iter()).any(|(p, g)| p.ip() != g.ip() || p.port() != case.port)
+            || ported.iter().zip(got.iter()).any(|(p, g)| {
+                // the same address in everything but the port (scope and flow label of IPv6 included)
+                let mut expect = *g;
+                expect.set_port(case.port);
+                *p != expect || p.ip() != g.ip() || p.port() != case.port
+            })
         {
             rep.violate(
                 "C16/set-port",
@@ -155,7 +163,7 @@ pub fn exhaustive_cases(max_len: usize) -> Vec<SortCase> {
 pub fn random_strategy() -> impl proptest::strategy::Strategy<Value = SortCase> {
     use proptest::prelude::*;
     (
-        proptest::collection::vec((any::<bool>(), 0u8..6, prop_oneof![Just(0u16), Just(80), Just(443), any::<u16>()]), 0..24),
+        proptest::collection::vec((any::<bool>(), prop_oneof![6 => 0u8..6, 1 => 200u8..203], prop_oneof![Just(0u16), Just(80), Just(443), any::<u16>()]), 0..24),
         (any::<bool>(), any::<bool>()),
         any::<u16>(),
     )
@@ -497,6 +505,34 @@ pub struct PortCase {
     pub simple: bool,
     /// decoy addresses (nobody listens) after the first one in the resolver's answer
     pub extra: u8,
+    /// the resolver answers with a *scoped* IPv6 address (link-local with its interface, `fe80::x%n`,
+    /// as getaddrinfo and mDNS-style resolvers do): the address that is tried is that address - scope
+    /// included - with the port of the URI. Only where the machine has a link-local address; only
+    /// `TcpTransport` (the resolver of `SimpleTcpTransport` answers with a bare `IpAddr`).
+    #[serde(default)]
+    pub scoped: bool,
+}
+
+/// A link-local IPv6 address of this machine with its interface index (from /proc/net/if_inet6),
+/// if a listener can be bound to it.
+pub fn link_local() -> Option<(Ipv6Addr, u32)> {
+    static LL: std::sync::OnceLock<Option<(Ipv6Addr, u32)>> = std::sync::OnceLock::new();
+    *LL.get_or_init(|| {
+        let text = std::fs::read_to_string("/proc/net/if_inet6").ok()?;
+        for line in text.lines() {
+            let f: Vec<&str> = line.split_whitespace().collect();
+            if f.len() < 6 || f[3] != "20" || f[0].len() != 32 {
+                continue;
+            }
+            let Ok(bits) = u128::from_str_radix(f[0], 16) else { continue };
+            let Ok(index) = u32::from_str_radix(f[1], 16) else { continue };
+            let ip = Ipv6Addr::from(bits);
+            if std::net::TcpListener::bind(SocketAddr::V6(std::net::SocketAddrV6::new(ip, 0, 0, index))).is_ok() {
+                return Some((ip, index));
+            }
+        }
+        None
+    })
 }
 
 pub struct PortEngine;
@@ -520,6 +556,54 @@ impl Engine for PortEngine {
         let rt = tokio::runtime::Builder::new_current_thread().enable_all().build().unwrap();
         let res: Result<(), String> = rt.block_on(async {
             let default_port = if c.scheme % 2 == 0 { 80u16 } else { 443 };
+            if c.scoped {
+                let Some((ll, scope)) = link_local() else {
+                    rep.class("no-link-local-address-on-this-machine");
+                    return Ok(());
+                };
+                let target = |port: u16| SocketAddr::V6(std::net::SocketAddrV6::new(ll, port, 0, scope));
+                let Ok(listener) = tokio::net::TcpListener::bind(target(0)).await else {
+                    rep.class("port-reservation-failed-inconclusive");
+                    return Ok(());
+                };
+                let port = listener.local_addr().map_err(|e| e.to_string())?.port();
+                // decoys around it: loopback addresses of both families where the port is held closed
+                let mut answer = vec![];
+                let mut holders = vec![];
+                for k in 0..(c.extra % 3) {
+                    let d: IpAddr = if k == 0 { IpAddr::V4(Ipv4Addr::new(127, 0, 0, 2)) } else { IpAddr::V6(Ipv6Addr::LOCALHOST) };
+                    if let Ok(h) = bound_unlistened(SocketAddr::new(d, port)) {
+                        holders.push(h);
+                        answer.push(SocketAddr::new(d, c.answer_port.wrapping_add(1)));
+                    }
+                }
+                // the scoped address first or last in the answer
+                if c.scheme / 2 % 2 == 0 {
+                    answer.insert(0, target(c.answer_port));
+                } else {
+                    answer.push(target(c.answer_port));
+                }
+                let scheme = if c.scheme % 2 == 0 { "http" } else { "https" };
+                let uri: http::Uri = format!("{scheme}://scoped.test:{port}/").parse().unwrap();
+                let parts = http::Request::get(uri.clone()).body(()).unwrap().into_parts().0;
+                let mut cfg = TcpTransportConfig::default();
+                cfg.connect_timeout = Some(std::time::Duration::from_secs(2));
+                let t: TcpTransport<ListResolver, TcpStream> = TcpTransport::builder().with_config(cfg).with_resolver(ListResolver(answer.clone())).build();
+                let result = match t.oneshot(parts).await {
+                    Ok(s) => s.peer_addr().map_err(|e| e.to_string()),
+                    Err(e) => Err(e.to_string()),
+                };
+                let desc = format!("{uri} through TcpTransport with the resolver answering {answer:?}; a listener waits on {}", target(port));
+                match result {
+                    Ok(peer) if peer == target(port) => {}
+                    Ok(peer) => rep.violate("C16/scoped-address-not-kept", format!("{desc}: connected to {peer}")),
+                    Err(e) => rep.violate("C16/scoped-address-not-kept", format!("{desc}: connect failed: {e}")),
+                }
+                rep.class("scoped-link-local-answer");
+                drop(listener);
+                drop(holders);
+                return Ok(());
+            }
             // an address of this case's own
             let mut listener = None;
             let mut ip = Ipv4Addr::LOCALHOST;
@@ -589,7 +673,7 @@ impl Engine for PortEngine {
         if c.simple {
             rep.class("simple-tcp-transport");
         }
-        rep.nontrivial = !c.explicit || c.extra % 3 > 0;
+        rep.nontrivial = !c.explicit || c.extra % 3 > 0 || c.scoped;
         rep.total_ops = 1;
         rep
     }
@@ -597,7 +681,8 @@ impl Engine for PortEngine {
 
 pub fn port_strategy() -> impl proptest::strategy::Strategy<Value = PortCase> {
     use proptest::prelude::*;
-    (0u8..2, any::<bool>(), prop_oneof![Just(0u16), Just(1u16), Just(80u16), Just(443u16), any::<u16>()], any::<bool>(), 0u8..3).prop_map(|(scheme, explicit, answer_port, simple, extra)| PortCase { scheme, explicit, answer_port, simple, extra })
+    (0u8..4, any::<bool>(), prop_oneof![Just(0u16), Just(1u16), Just(80u16), Just(443u16), any::<u16>()], any::<bool>(), 0u8..3, prop_oneof![3 => Just(false), 1 => Just(true)])
+        .prop_map(|(scheme, explicit, answer_port, simple, extra, scoped)| PortCase { scheme, explicit, answer_port, simple: simple && !scoped, extra, scoped })
 }
 
 // ------------------------------------------------------------------------------------------------
